@@ -858,6 +858,17 @@ def call_method(interp, recv, name, args, kwargs):
             # all splits: a sequence of strings of unknown contents (weak model); its length is
             # count(sep) + 1 for a single-character separator, at least 1 otherwise
             from .api import ListOf, Str as _Str
+            if len(sep) == 1 and interp.st.ghost.get('__exact_split__'):
+                # opt-in of a sidecar module (`M.exact_split = True`): exact for at most one separator --
+                # no occurrence: [s]; one occurrence: [a, b] with s == a . sep . b (the pieces of split(sep, 1))
+                f = count_fn(interp, sep)
+                _count_facts(interp, f, sep, t)
+                if interp.st.fork(wrap(f(t) == 0)):
+                    return [recv]
+                if interp.st.fork(wrap(f(t) == 1)):
+                    found, a, b = _split_once(interp, recv, sep)
+                    if found:
+                        return [a, b]       # (else: infeasible; the weak model below is sound anyway)
             out = ListOf(_Str, min_len=1).make(interp, 'split')
             if len(sep) == 1:
                 f = count_fn(interp, sep)
